@@ -136,7 +136,7 @@ IneligibleUntagged(W, i, o) == ~Eligible(W, W.aln[i]) => Untagged(o)
 TaggedWhen(W, i, o) ==
     LET a == W.aln[i]
         T == Touched(W, i) IN
-    (/\ Eligible(W, a) /\ ~a.sup
+    (/\ Eligible(W, a)
      /\ Cardinality(T) = 1
      /\ \A key \in T : key[1] = a.chrom /\ UniqueBest(Scores(W, i, key)))
        => /\ o.hp # Absent
